@@ -1725,6 +1725,8 @@ def check_C05(A, R, tier):
     # R5.7 wake-up of parked upstream Ephemerals when a job is finished without having run
     rule_wake_parked_upstreams(A, R, "R5.7")
     rule_flag_change_wakes_upstreams(A, R, "R5.8")
+    from rules_c04 import rule_invalidated_is_needed
+    rule_invalidated_is_needed(A, R, "R5.9")
     # R5.4 signals emitted while handling are not lost: the local signal list is moved into the queue
     sp = A.signal_processor()
     run = H[(K["done"], sorted(C["Finished"])[0])]
